@@ -75,15 +75,15 @@ def finite_pred_target(ev, P, negated=False):
     if it[0] != "call" or not (it[1].endswith("::iter") or it[1].endswith("::into_iter") or it[1].endswith("::iter_mut")):
         return None
     X = it[3][0]
-    if clo[0] != "closure":
+    if clo[0] not in ("closure", "fnref"):
         return None
     sym = ("elem", ("itersym",))
-    body = ev.facts.bodies.get(clo[1])
-    if body is None:
+    body = ev.facts.bodies.get(clo[1]) if clo[0] == "closure" else None
+    if body is None and clo[0] == "closure":
         return None
     saved = ev.ctx
     ev.fresh_ctx()
-    r = ev.apply(clo, [sym], ("finite-pred", 0, 0), Env(body))
+    r = ev.apply(clo, [sym], ("finite-pred", 0, 0), Env(body) if body is not None else Env(next(iter(ev.facts.bodies.values()))))
     ev.ctx = saved
     neg = False
     while r[0] == "un" and r[1] == "Not":
